@@ -706,7 +706,10 @@ impl Inner {
             }
         };
 
-        if stream.is_pending_open {
+        // A request that has not been sent yet is idle for the peer. A pushed
+        // stream in the same queue is not: its PUSH_PROMISE has been written,
+        // the peer may refuse it (RST_STREAM) or send WINDOW_UPDATE for it.
+        if stream.is_pending_open && !self.counts.peer().is_server() {
             proto_err!(conn: "recv_reset: received frame on idle stream {:?}", id);
             return Err(Error::library_go_away(Reason::PROTOCOL_ERROR));
         }
@@ -743,7 +746,9 @@ impl Inner {
             // The remote may send window updates for streams that the local now
             // considers closed. It's ok...
             if let Some(mut stream) = self.store.find_mut(&id) {
-                if stream.is_pending_open {
+                // See `recv_reset`: a pushed stream waiting to be opened is
+                // reserved, not idle.
+                if stream.is_pending_open && !self.counts.peer().is_server() {
                     proto_err!(conn: "recv_window_update: received frame on idle stream {:?}", id);
                     return Err(Error::library_go_away(Reason::PROTOCOL_ERROR));
                 }
